@@ -86,6 +86,15 @@ Second round:
   -- masking key and masked payload -- are themselves well-formed frames (key = the unmasked ping 89 02 6d 6b,
   then [final empty continuation if a message is open] [text "evil"] [close]), label
   `oversized_frame_embeds_valid_frames`; a third of too_big_single cases keep the plain filler.
+Third round:
+  M13 _PerMessageDeflateDecompressor.decompress: `result += decompressor.flush()` for the one-shot (no context
+      takeover) inflater before the unconsumed_tail test -- the inflate limit never fires in that mode
+                                                                      -> C15.delivered_after_violation (too_big_inflated), seeds 1-3
+  permessage-deflate is now negotiated with a generated (server_no_context_takeover, client_no_context_takeover)
+  pair in the `main` part (labels no_context_takeover_*, receiving_without_context_takeover; the reference
+  encoder/decoder follow the agreed takeover rules), and the deterministic part `size_grid` runs, for both roles x
+  the 4 takeover combinations x limits {64, 1000} x text/binary, compressed messages inflating to limit-1 and limit
+  (must arrive) followed by one inflating to limit+1 resp. 10*limit (must be refused, 1009, nothing delivered).
 """
 import struct
 
@@ -118,7 +127,7 @@ ASSUMPTIONS = [
 ]
 TECHNIQUE = "property-based testing (Hypothesis): valid frame sequences from an independent codec with one named violation inserted; reference-decoder verdict as cross-check"
 LEVEL_TEXT = (
-    "bounded exploration: ~2500 sequences (quick) / ~40k (thorough), each one violation among <=5 valid messages of "
+    "bounded exploration: ~2000 sequences (quick) / ~40k (thorough), each one violation among <=5 valid messages of "
     "<=2000 bytes (size-limit cases up to 65537 bytes; inflated bombs up to 1 MiB); no claim for violations "
     "outside the 23 listed kinds"
 )
@@ -187,6 +196,8 @@ case_s = st.fixed_dictionaries({
     "role": st.sampled_from(["server", "client"]),
     "callback_mode": st.booleans(),
     "deflate": st.booleans(),
+    # (server_no_context_takeover, client_no_context_takeover) negotiated together with permessage-deflate
+    "nct": st.tuples(st.booleans(), st.booleans()),
     "limit": st.one_of(st.none(), st.sampled_from(LIMITS)),
     "before": st.lists(valid_msg_s, max_size=3),
     "inside": st.booleans(),
@@ -470,12 +481,20 @@ def run_case(ctx, case0):
         labels.add("limit_set")
     out = {}
 
+    snct, cnct = case.get("nct", (False, False))
+    ext = H.offer_string(server_nct=snct, client_nct=cnct) if deflate else None
+    if deflate and (snct or cnct):
+        labels.add("no_context_takeover_%s%s" % ("s" if snct else "", "c" if cnct else ""))
+        # the direction Tornado RECEIVES on uses a one-shot inflater per message
+        if (role == "server" and cnct) or (role == "client" and snct):
+            labels.add("receiving_without_context_takeover")
+
     async def scenario():
         rec = H.Recorder()
         if role == "server":
             settings = {"websocket_max_message_size": limit} if limit is not None else {}
             app = H.make_app(rec, compression={} if deflate else None, settings=settings)
-            peer = H.RefClient(app, ext="permessage-deflate" if deflate else None)
+            peer = H.RefClient(app, ext=ext)
             if not await peer.handshake():
                 return ctx.fail("C15.handshake_failed", {"wire": peer.session.wire[:200]})
             stream = peer.stream
@@ -492,7 +511,7 @@ def run_case(ctx, case0):
             peer = H.RefServer(cl)
             if await peer.read_request() is None:
                 return ctx.fail("C15.client_sent_no_request", {})
-            if not await peer.accept(ext="permessage-deflate" if deflate else None):
+            if not await peer.accept(ext=ext):
                 return ctx.fail("C15.handshake_failed", {"future": repr(cl.connect_future)})
             stream = cl.stream
             received = cl.messages
@@ -501,6 +520,8 @@ def run_case(ctx, case0):
             labels.add("client_callback" if case["callback_mode"] else "client_read_message")
         if (peer.deflate is not None) != deflate:
             return ctx.fail("C15.deflate_not_negotiated", {})
+        if deflate and (peer.deflate.server_nct, peer.deflate.client_nct) != (snct, cnct):
+            return ctx.fail("C15.no_context_takeover_not_negotiated", {"asked": (snct, cnct), "got": peer.deflate.as_dict()})
         enc = H.RefEncoder(ref_role, case["masks"], peer.deflate.deflater(ref_role) if deflate else None)
 
         # ---- valid prefix
@@ -658,7 +679,7 @@ def reference_verdict_case(ctx, case0):
     non-EITHER violation a violation and every valid prefix valid (no Tornado code involved)."""
     case = normalise(case0)
     role = "client" if case["role"] == "server" else "server"
-    dp = wsref.DeflateParams() if case["deflate"] else None
+    dp = wsref.DeflateParams(*case.get("nct", (False, False))) if case["deflate"] else None
     enc = H.RefEncoder(role, case["masks"], dp.deflater(role) if dp else None)
     dec = wsref.Decoder(expect_masked=(role == "client"), inflater=dp.inflater(role) if dp else None, max_message=case["limit"])
     for m in case["before"]:
@@ -754,14 +775,14 @@ def run_frames_case(ctx, case):
             if not await peer.handshake():
                 return ctx.fail("C15.handshake_failed", {})
             stream, received, closes = peer.stream, rec.messages, (lambda: rec.count("close"))
-            code = lambda: rec.handler.close_code
+            code = lambda: next((e[1] for e in rec.events if e[0] == "close"), rec.handler.close_code)
         else:
             cl = H.ClientSide(callback_mode=case["callback_mode"])
             peer = H.RefServer(cl)
             if await peer.read_request() is None or not await peer.accept():
                 return ctx.fail("C15.handshake_failed", {})
             stream, received, closes = cl.stream, cl.messages, (lambda: sum(1 for m in cl.received if m is None))
-            code = lambda: cl.connect_future.result().close_code
+            code = lambda: cl.reported_close()[0]
         peer.decoder.control_after_close_ok = True
         await peer.send(bytes(data), H.segments(len(data), case["segs"]))
         await peer.advance(6)
@@ -834,12 +855,30 @@ def grid_cases(maxlen):
                        "frames": [(GRID_ALPHABET[i][0], GRID_ALPHABET[i][1], 0, False, GRID_ALPHABET[i][2], None, True, True) for i in seq]}
 
 
-PARTS = {"main": run_case, "refcheck": reference_verdict_case, "frames": run_frames_case, "grid": run_frames_case}
+def size_grid():
+    """Deterministic: both roles x the 4 context-takeover combinations x limits {64, 1000} x text/binary: compressed
+    messages inflating to limit-1 and exactly limit (must be delivered), then one inflating to limit+1 resp. 10*limit
+    (tiny on the wire; must be refused with 1009 and nothing delivered), then a small valid message."""
+    def valid(n, exact, binary):
+        return {"binary": binary, "text": "z" * n, "rep": 1, "cuts": [], "compress": True, "ping_gap": False, "exact_limit": exact}
+    for role in ("server", "client"):
+        for nct in ((False, False), (False, True), (True, False), (True, True)):
+            for limit in (64, 1000):
+                for extra in (1, 9 * limit):
+                    for binary in (False, True):
+                        yield {"role": role, "callback_mode": True, "deflate": True, "nct": nct, "limit": limit,
+                               "before": [valid(limit - 1, False, binary), valid(limit, True, binary)], "inside": False, "head": b"head!",
+                               "head_conts": 0, "violation": ("too_big_inflated", extra, binary, []), "after": [valid(5, False, binary)],
+                               "same_segment": extra == 1, "segs": [], "masks": [b"\x10\x20\x30\x40"]}
+
+
+PARTS = {"main": run_case, "refcheck": reference_verdict_case, "frames": run_frames_case, "grid": run_frames_case, "size_grid": run_case}
 
 
 def main(ctx):
     ctx.run_replays(PARTS)
+    ctx.enumerate(size_grid(), run_case, name="size_grid")
     ctx.explore(case_s, reference_verdict_case, ctx.n(300, 4000), name="refcheck")
-    ctx.explore(case_s, run_case, ctx.n(2500, 40000), name="main")
-    ctx.explore(frames_case_s, run_frames_case, ctx.n(1200, 30000), name="frames")
+    ctx.explore(case_s, run_case, ctx.n(2000, 40000), name="main")
+    ctx.explore(frames_case_s, run_frames_case, ctx.n(1000, 30000), name="frames")
     ctx.enumerate(grid_cases(4 if ctx.thorough else 3), run_frames_case, name="grid")
